@@ -121,6 +121,23 @@ def run(rep, tier, seed):
                 'non-trivial = type depth>=1 or tagged')
     rep.assumptions = ['text codecs trusted']
     pool = []
+    # corpus: identifiers with tag numbers >= 31 that share their leading octet, inside one value and back to back on
+    # one stream (every element is framed by its own identifier, whatever was seen before)
+    from harness import sexp_types
+    long_tag_cases = []
+    for ts, vs in [("(seq (r (tag i c 31 int)) (r (tag i c 40 int)))", "(seq (i 5) (i 7))"),
+                   ("(seq (r (tag e c 31 int)) (r (tag e c 1000 (str 4))) (r (tag e c 31 bool)))", "(seq (i 5) (s 6162) (b 1))"),
+                   ("(tag e c 31 int)", "(i 1)"), ("(tag e c 1000 int)", "(i 2)"), ("(tag e c 31 int)", "(i 3)"), ("(tag e c 5 int)", "(i 4)"),
+                   ("(tag i a 16384 (seqof (tag i a 16385 int)))", "(of (i 1) (i 2))")]:
+        c = engine.Case(sexp_types.ty_of_sexp(gen.parse_sexps(ts)[0]), gen.val_of_sexp(gen.parse_sexps(vs)[0]))
+        rep.case('corpus ' + c.canon, nontrivial=True)
+        check_case(rep, drv, c, [('ber', True, 0), ('der', True, 0)], rng)
+        ie = codec.impl_encode('ber', c.t, c.v, True, 0, obj=c.fresh_obj())
+        if ie[0] == 'ok':
+            long_tag_cases.append((c, ie[1]))
+    for seekable in (True, False):
+        check_stream(rep, long_tag_cases, 'ber', seekable, rng)
+        check_stream(rep, long_tag_cases[2:6], 'ber', seekable, rng)
     for case in engine.gen_cases(rng, n, max_depth=2, allow_any=True):
         if not engine.representable(case):
             continue
